@@ -18,6 +18,7 @@ import genprog
 import probes
 import c01core
 import c01sweeps
+import c01pattern
 from common import log
 
 PID = "C01"
@@ -210,8 +211,9 @@ def run(chk, rebaseline=False):
         "deviations of the pinned tree, which would make the check raise an alarm on the unchanged tree",
     ]
     chk.prove(["theories/Lang/Properties.vo", "theories/Lang/OpsExec.vo", "theories/Lang/CoreProperties.vo", "theories/Lang/PrattProperties.vo",
-               "theories/Lang/CoreExec.vo"],
-              ["theories/Lang/Properties.v", "theories/Lang/CoreProperties.v", "theories/Lang/PrattProperties.v"], facts=["C01"])
+               "theories/Lang/CoreExec.vo", "theories/Lang/ArrayPatternProperties.vo", "theories/Lang/ArrayPatternExec.vo"],
+              ["theories/Lang/Properties.v", "theories/Lang/CoreProperties.v", "theories/Lang/PrattProperties.v",
+               "theories/Lang/ArrayPatternProperties.v"], facts=["C01"])
     ok, out, chk.th = common.build_harness("debug")
     if not ok:
         chk.proof_breaks.append("harness does not build against /repo: " + out[-800:])
@@ -225,6 +227,13 @@ def run(chk, rebaseline=False):
         return chk.finish()
     if not chk.replay:
         c01core.run(chk, chk.th, stats)
+
+    # ---- stream M4: array patterns: emitted instructions and outcome vs Lang/ArrayPattern*.v vs node ----
+    if chk.replay and "iterator_values" in json.load(open(chk.replay)):
+        c01pattern.run(chk, chk.th, stats)
+        return chk.finish()
+    if not chk.replay:
+        c01pattern.run(chk, chk.th, stats)
 
     # ---- stream A: operators on primitives: tsrun vs model vs node -----------------
     prims = probes.PRIMS
@@ -412,6 +421,7 @@ def run(chk, rebaseline=False):
         "known_probe_deviations": stats["known_probe_deviations"], "known_program_deviations": stats["known_program_deviations"],
         "generator_features": feats, "disagreements": stats["disagreements"],
         "sweeps": len(c01sweeps.S), "sweep_items": stats.get("sweep_items", 0),
+        "array_pattern_cases": stats.get("pattern_cases", 0), "array_pattern_instructions_compared": stats.get("pattern_instructions", 0),
         "core_programs": stats.get("core_programs", 0), "core_instructions_compared": stats.get("core_instructions", 0),
         "core_value_outcomes": stats.get("core_value", 0), "core_error_outcomes": stats.get("core_error", 0),
     })
